@@ -54,7 +54,7 @@ Lemma inv_bound s x : bm_Inv s -> In x (bm_abs s) -> x < 65536.
 Proof.
   unfold bm_Inv, bm_abs, bm_iter_all. destruct (bm_c s) as [R cap|m|runs cap].
   - intros (_ & _ & Hb & _) Hx. rewrite arr_values_rev in Hx. apply Hb. apply in_rev. exact Hx.
-  - intros _ Hx. apply in_bits_values in Hx. tauto.
+  - intros _ Hx. apply (proj1 (in_bits_values _ _)) in Hx. tauto.
   - intros (H & _) Hx. pose proof (runs_values_bounds _ _ _ H Hx). lia.
 Qed.
 
@@ -101,7 +101,7 @@ Proof.
   - intros _. split.
     + split; [apply bytes_in_zero|]. unfold bm_zero_bits. rewrite popsum_zero. reflexivity.
     + apply sorted_ext; [apply sorted_bits_values|constructor|]. intro x. rewrite in_bits_values.
-      unfold bm_zero_bits. rewrite bit_of_zero. split; [intros [_ H]; discriminate|intros []].
+      unfold bm_zero_bits. rewrite bit_of_zero. split; [intros [_ H]; discriminate H|intros []].
   - intros (_ & _ & Hcap). split; [|reflexivity]. unfold runs_inv. cbn. repeat split; lia.
 Qed.
 
@@ -131,10 +131,10 @@ Proof.
   destruct (bit_of m v) eqn:B; cbn [negb fst snd].
   - split; [|split; [exact Hx|]].
     + unfold bm_Inv. cbn [bm_c bm_card]. split; [apply bits_set_bytes; exact Hb|lia].
-    + split; [discriminate|]. intro H. exfalso. apply H, Hin. reflexivity.
+    + split; [intro Hd; discriminate Hd|]. intro H. exfalso. apply H. apply (proj2 Hin). reflexivity.
   - split; [|split; [exact Hx|]].
     + unfold bm_Inv. cbn [bm_c bm_card]. split; [apply bits_set_bytes; exact Hb|]. rewrite u32_small by lia. lia.
-    + split; [intros _ H; apply Hin in H; discriminate|reflexivity].
+    + split; [intros _ H; apply (proj1 Hin) in H; discriminate H|reflexivity].
 Qed.
 
 Lemma add_array_spec card R cap v : arr_ok card R cap -> v < 65536 ->
@@ -152,9 +152,9 @@ Proof.
     cbn [fst snd]. split; [|split].
     + unfold bm_Inv. cbn [bm_c bm_card]. repeat split; assumption.
     + intro x. unfold bm_abs, bm_iter_all. cbn [bm_c]. rewrite arr_values_rev. split; [tauto|].
-      intros [->|H]; [apply F; lia|exact H].
-    + split; [discriminate|]. intro H. exfalso. apply H, F. lia.
-  - assert (Hnot : ~ In v (rev R)) by (intro H; apply F in H; lia).
+      intros [->|H]; [apply (proj1 F); lia|exact H].
+    + split; [intro Hd; discriminate Hd|]. intro H. exfalso. apply H. apply (proj1 F). lia.
+  - assert (Hnot : ~ In v (rev R)) by (intro H; apply (proj2 F) in H; lia).
     destruct P as [_ P2]. assert (Hr : (r < 0)%Z) by lia. specialize (P2 Hr). cbv zeta in P2.
     destruct P2 as (Pp & PL & PR). set (p := Z.to_nat (- (r + 1))) in *.
     destruct (4096 <=? card) eqn:E4.
@@ -166,12 +166,12 @@ Proof.
       assert (Hm2 : popsum m = card) by (unfold m; rewrite set_all_zero_popsum by assumption; rewrite lenN_rev; lia).
       assert (Hm3 : bm_bits_values m = rev R) by (apply set_all_zero_values; assumption).
       assert (Hbit : bit_of m v = false).
-      { destruct (bit_of m v) eqn:B; [|reflexivity]. exfalso. apply Hnot. rewrite <- Hm3. apply in_bits_values. tauto. }
+      { destruct (bit_of m v) eqn:B; [|reflexivity]. exfalso. apply Hnot. rewrite <- Hm3. apply (proj2 (in_bits_values _ _)). tauto. }
       pose proof (popsum_set m v Hv) as Q. rewrite Hbit in Q.
       split; [|split].
       * unfold bm_Inv. cbn [bm_c bm_card]. split; [apply bits_set_bytes; exact Hm1|]. rewrite u32_small by lia. lia.
       * intro x. unfold bm_abs, bm_iter_all. cbn [bm_c]. rewrite in_bits_values, bits_set_bit.
-        rewrite <- Hm3 at 2. rewrite in_bits_values.
+        rewrite <- Hm3. rewrite in_bits_values.
         destruct (N.eqb_spec x v) as [->|Hne]; cbn [orb]; [tauto|]. split; [tauto|]. intros [Ee|H]; [congruence|exact H].
       * tauto.
     + (* insertion *)
@@ -187,7 +187,7 @@ Proof.
         repeat split.
         -- lia.
         -- rewrite Hrev. apply sorted_insert; assumption.
-        -- intros x Hx. apply in_rev in Hx. rewrite Hrev in Hx. apply in_insert in Hx.
+        -- intros x Hx. apply in_rev in Hx. rewrite Hrev in Hx. apply (proj1 (in_insert _ _ _ _)) in Hx.
            destruct Hx as [->|Hx]; [exact Hv|apply Hb, in_rev; exact Hx].
         -- rewrite Hl. apply ensure_capacity_ge.
       * intro x. unfold bm_abs, bm_iter_all. cbn [bm_c]. rewrite arr_values_rev, Hrev. apply in_insert.
@@ -230,7 +230,290 @@ Proof.
   - apply add_bits_spec; assumption.
   - pose proof (runs_inv_card_le _ _ _ H) as Hle.
     destruct (4096 <=? bm_card s) eqn:E.
-    + destruct (runs_as_bits _ _ _ H) as [Hb Hval]. rewrite <- Hval. apply add_bits_spec; assumption.
+    + destruct (runs_as_bits _ _ _ H) as [Hb Hval].
+      pose proof (add_bits_spec _ _ v Hb Hv) as Q. rewrite Hval in Q. exact Q.
     + assert (Hcap : bm_card s <= bm_u32 (bm_card s + 1)) by (rewrite u32_small by lia; lia).
-      destruct (runs_as_array _ _ _ _ H Hcap) as [Ha Hval]. rewrite <- Hval. apply add_array_spec; assumption.
+      destruct (runs_as_array _ _ _ _ H Hcap) as [Ha Hval].
+      pose proof (add_array_spec _ _ _ v Ha Hv) as Q. rewrite Hval in Q. exact Q.
+Qed.
+
+(* ---- Remove ---- *)
+Definition remove_post (res : bm_state * bool) (v : N) (old : list N) : Prop :=
+  bm_Inv (fst res) /\ (forall x, In x (bm_abs (fst res)) <-> In x old /\ x <> v) /\
+  (snd res = true <-> In v old).
+
+Lemma remove_array_spec card R cap v : arr_ok card R cap ->
+  remove_post (bm_remove_array card R cap v) v (rev R).
+Proof.
+  intros (Hc & Hs & Hb & Hcap). unfold bm_remove_array, remove_post.
+  assert (Hle : bm_lenN R <= 65536).
+  { pose proof (sorted_length_le (rev R) Hs) as H. rewrite lenN_rev in H. apply H. intros x Hx. apply Hb, in_rev. exact Hx. }
+  assert (Hlen : bm_lenN (rev R) < 2147483648) by (rewrite lenN_rev; lia).
+  pose proof (binary_search_spec (rev R) v Hs Hlen) as P. rewrite rev_involutive, lenN_rev, <- Hc in P.
+  pose proof (bs_found_iff (rev R) v _ Hs P) as F.
+  set (r := bm_binary_search R card v) in *.
+  destruct (r <? 0)%Z eqn:E.
+  - assert (Hnot : ~ In v (rev R)) by (intro H; apply (proj2 F) in H; lia).
+    cbn [fst snd]. split; [|split].
+    + unfold bm_Inv. cbn [bm_c bm_card]. repeat split; assumption.
+    + intro x. rewrite abs_array. split; [intro H; split; [exact H|intro; subst; contradiction]|tauto].
+    + split; [intro Hd; discriminate Hd|intro H; contradiction].
+  - destruct P as [P1 _]. assert (Hr : (0 <= r)%Z) by lia. specialize (P1 Hr). destruct P1 as [Plt Pv].
+    assert (Hin : In v (rev R)) by (apply (proj1 F); exact Hr).
+    cbn [fst snd]. set (r' := Z.to_nat r) in *.
+    assert (Hlr : (r' < length (rev R))%nat) by exact Plt.
+    assert (Ep : card - 1 - Z.to_N r = bm_lenN (rev R) - 1 - N.of_nat r') by (rewrite lenN_rev; unfold r'; lia).
+    assert (Hrev : rev (bm_removeN R (card - 1 - Z.to_N r)) = firstn r' (rev R) ++ skipn (S r') (rev R)).
+    { rewrite Ep. rewrite <- (rev_involutive R) at 1. apply remove_rev. exact Hlr. }
+    destruct (sorted_remove (rev R) r' Hs Hlr) as [Q1 Q2]. rewrite Pv in Q2.
+    assert (Hl : bm_lenN (bm_removeN R (card - 1 - Z.to_N r)) + 1 = card).
+    { rewrite <- lenN_rev, Hrev, lenN_app. unfold bm_lenN in *.
+      rewrite firstn_length, skipn_length in *. rewrite rev_length in *. lia. }
+    split; [|split].
+    + unfold bm_Inv. cbn [bm_c bm_card]. rewrite sub32_small by lia. repeat split.
+      * lia.
+      * rewrite Hrev. exact Q1.
+      * intros x Hx. apply in_rev in Hx. rewrite Hrev in Hx. apply (proj1 (Q2 x)) in Hx. apply Hb, in_rev. tauto.
+      * lia.
+    + intro x. rewrite abs_array, Hrev. apply Q2.
+    + tauto.
+Qed.
+
+Lemma remove_bits_spec card m v : bits_ok card m -> v < 65536 ->
+  remove_post (bm_remove_bits card m v) v (bm_bits_values m).
+Proof.
+  intros (Hb & Hc) Hv. unfold bm_remove_bits, remove_post. rewrite bits_clear_flag.
+  set (m' := fst (bm_bits_clear m v)).
+  assert (Hin : In v (bm_bits_values m) <-> bit_of m v = true) by (rewrite in_bits_values; tauto).
+  assert (Hx : forall x, In x (bm_bits_values m') <-> In x (bm_bits_values m) /\ x <> v).
+  { intro x. unfold m'. rewrite !in_bits_values, bits_clear_bit. destruct (N.eqb_spec x v) as [->|Hne]; cbn [negb].
+    - rewrite andb_false_r. split; [intros [_ Hd]; discriminate Hd|intros [_ Hd]; congruence].
+    - rewrite andb_true_r. tauto. }
+  pose proof (popsum_clear m v Hv) as P. fold m' in P.
+  assert (Hb' : bytes_in m') by (apply bits_clear_bytes; exact Hb).
+  destruct (bit_of m v) eqn:B; cbn [fst snd].
+  - assert (Hc1 : bm_sub32 card 1 = popsum m') by (pose proof (popsum_le m); rewrite sub32_small by lia; lia).
+    destruct (bm_sub32 card 1 <? 4096) eqn:E4; cbn [fst snd].
+    + split; [|split].
+      * unfold bm_Inv. cbn [bm_c bm_card]. unfold arr_ok. rewrite arr_of_values_rev, rev_involutive, lenN_rev, length_bits_values.
+        repeat split; [exact Hc1|apply sorted_bits_values| |lia].
+        intros x Hxx. apply in_rev in Hxx. apply (proj1 (in_bits_values _ _)) in Hxx. tauto.
+      * intro x. rewrite abs_array, arr_of_values_rev, rev_involutive. apply Hx.
+      * split; [intros _; apply (proj2 Hin); reflexivity|reflexivity].
+    + split; [|split].
+      * unfold bm_Inv. cbn [bm_c bm_card]. split; assumption.
+      * exact Hx.
+      * split; [intros _; apply (proj2 Hin); reflexivity|reflexivity].
+  - split; [|split].
+    + unfold bm_Inv. cbn [bm_c bm_card]. split; [exact Hb'|lia].
+    + exact Hx.
+    + split; [intro Hd; discriminate Hd|]. intro H. apply (proj1 Hin) in H. discriminate H.
+Qed.
+
+Theorem remove_spec s v : bm_Inv s -> v < 65536 -> remove_post (bm_remove s v) v (bm_abs s).
+Proof.
+  intros H Hv. unfold bm_remove. unfold bm_Inv in H. unfold bm_abs at 1, bm_iter_all.
+  destruct (bm_c s) as [R cap|m|runs cap].
+  - rewrite arr_values_rev. apply remove_array_spec; assumption.
+  - apply remove_bits_spec; assumption.
+  - pose proof (runs_inv_card_le _ _ _ H) as Hle.
+    destruct (4096 <=? bm_card s) eqn:E.
+    + destruct (runs_as_bits _ _ _ H) as [Hb Hval].
+      pose proof (remove_bits_spec _ _ v Hb Hv) as Q. rewrite Hval in Q. exact Q.
+    + assert (Hcap : bm_card s <= bm_card s) by lia.
+      destruct (runs_as_array _ _ _ _ H Hcap) as [Ha Hval].
+      pose proof (remove_array_spec _ _ _ v Ha) as Q. rewrite Hval in Q. exact Q.
+Qed.
+
+(* ---- loops of Add / Remove ---- *)
+Lemma fold_add_spec l : forall s, bm_Inv s -> (forall v, In v l -> v < 65536) ->
+  let s' := fold_left (fun r v => fst (bm_add r v)) l s in
+  bm_Inv s' /\ forall x, In x (bm_abs s') <-> In x l \/ In x (bm_abs s).
+Proof.
+  induction l as [|v l IH]; intros s H Hl; cbn [fold_left].
+  - split; [exact H|]. intro x. cbn [In]. tauto.
+  - destruct (add_spec s v H (Hl v (or_introl eq_refl))) as (I1 & I2 & _).
+    destruct (IH _ I1 (fun w Hw => Hl w (or_intror Hw))) as [J1 J2]. split; [exact J1|].
+    intro x. rewrite (J2 x), (I2 x). cbn [In]. split; [intros [A|[A|A]]|intros [[A|A]|A]]; auto.
+Qed.
+
+Lemma fold_remove_spec l : forall s, bm_Inv s -> (forall v, In v l -> v < 65536) ->
+  let s' := fold_left (fun r v => fst (bm_remove r v)) l s in
+  bm_Inv s' /\ forall x, In x (bm_abs s') <-> In x (bm_abs s) /\ ~ In x l.
+Proof.
+  induction l as [|v l IH]; intros s H Hl; cbn [fold_left].
+  - split; [exact H|]. intro x. cbn [In]. tauto.
+  - destruct (remove_spec s v H (Hl v (or_introl eq_refl))) as (I1 & I2 & _).
+    destruct (IH _ I1 (fun w Hw => Hl w (or_intror Hw))) as [J1 J2]. split; [exact J1|].
+    intro x. rewrite (J2 x), (I2 x). cbn [In]. split.
+    + intros [[A B] C]. split; [exact A|]. intros [D|D]; [congruence|contradiction].
+    + intros [A B]. split; [split; [exact A|intro; subst; apply B; left; reflexivity]|intro D; apply B; right; exact D].
+Qed.
+
+Lemma fold_left_ext {A B} (f g : A -> B -> A) l a : (forall x y, f x y = g x y) -> fold_left f l a = fold_left g l a.
+Proof. intro H. revert a. induction l as [|y l IH]; intro a; [reflexivity|]. cbn [fold_left]. rewrite H. apply IH. Qed.
+
+Lemma fold_add_if_spec (f : N -> bool) l : forall s, bm_Inv s -> (forall v, In v l -> v < 65536) ->
+  let s' := fold_left (fun r v => if f v then fst (bm_add r v) else r) l s in
+  bm_Inv s' /\ forall x, In x (bm_abs s') <-> (In x l /\ f x = true) \/ In x (bm_abs s).
+Proof.
+  induction l as [|v l IH]; intros s H Hl; cbn [fold_left].
+  - split; [exact H|]. intro x. cbn [In]. tauto.
+  - destruct (f v) eqn:Fv.
+    + destruct (add_spec s v H (Hl v (or_introl eq_refl))) as (I1 & I2 & _).
+      destruct (IH _ I1 (fun w Hw => Hl w (or_intror Hw))) as [J1 J2]. split; [exact J1|].
+      intro x. rewrite (J2 x), (I2 x). cbn [In]. split.
+      * intros [[A B]|[A|A]]; [left; tauto|left; subst; tauto|right; exact A].
+      * intros [[[A|A] B]|A]; [right; left; congruence|left; tauto|right; right; exact A].
+    + destruct (IH _ H (fun w Hw => Hl w (or_intror Hw))) as [J1 J2]. split; [exact J1|].
+      intro x. rewrite (J2 x). cbn [In]. split.
+      * intros [[A B]|A]; [left; tauto|right; exact A].
+      * intros [[[A|A] B]|A]; [subst; congruence|left; tauto|right; exact A].
+Qed.
+
+Theorem add_many_spec s vs : bm_Inv s -> (forall v, In v vs -> v < 65536) ->
+  bm_Inv (bm_add_many s vs) /\ forall x, In x (bm_abs (bm_add_many s vs)) <-> In x vs \/ In x (bm_abs s).
+Proof. intros H Hv. apply (fold_add_spec vs s H Hv). Qed.
+
+Lemma abs_nil_of_card0 s : bm_Inv s -> bm_card s = 0 -> bm_abs s = [].
+Proof.
+  intros H E. pose proof (inv_card s H) as C. rewrite E in C. destruct (bm_abs s); [reflexivity|].
+  unfold bm_lenN in C. cbn in C. lia.
+Qed.
+
+Theorem add_range_spec s lo hi : bm_Inv s -> lo < 65536 -> hi < 65536 ->
+  bm_Inv (bm_add_range s lo hi) /\
+  forall x, In x (bm_abs (bm_add_range s lo hi)) <-> (lo <= x < hi) \/ In x (bm_abs s).
+Proof.
+  intros H Hlo Hhi. unfold bm_add_range. destruct (hi <=? lo) eqn:E.
+  - split; [exact H|]. intro x. split; [tauto|]. intros [A|A]; [lia|exact A].
+  - destruct ((4096 <? hi - lo) && (bm_card s =? 0)) eqn:E2.
+    + assert (E0 : bm_card s = 0) by lia. rewrite (abs_nil_of_card0 s H E0). rewrite u16_small by lia.
+      split.
+      * unfold bm_Inv, runs_inv. cbn [bm_c bm_card runs_ok runs_sum fst snd]. unfold bm_lenN. cbn [length]. repeat split; lia.
+      * intro x. unfold bm_abs, bm_iter_all. cbn [bm_c]. unfold bm_runs_values. cbn [flat_map]. rewrite app_nil_r.
+        rewrite in_run_vals by (cbn [fst snd]; lia). cbn [fst snd In]. lia.
+    + rewrite for_loop_spec.
+      assert (Hl : forall v, In v (nseq lo (N.to_nat (hi - lo))) -> v < 65536) by (intros v Hv; apply in_nseq in Hv; lia).
+      destruct (fold_add_spec _ s H Hl) as [J1 J2]. split; [exact J1|].
+      intro x. rewrite (J2 x), in_nseq.
+      assert (A : lo <= x < lo + N.of_nat (N.to_nat (hi - lo)) <-> lo <= x < hi) by lia. tauto.
+Qed.
+
+Theorem remove_range_spec s lo hi : bm_Inv s -> lo < 65536 -> hi < 65536 ->
+  bm_Inv (bm_remove_range s lo hi) /\
+  forall x, In x (bm_abs (bm_remove_range s lo hi)) <-> In x (bm_abs s) /\ ~ (lo <= x < hi).
+Proof.
+  intros H Hlo Hhi. unfold bm_remove_range. rewrite for_loop_spec.
+  assert (Hl : forall v, In v (nseq lo (N.to_nat (hi - lo))) -> v < 65536) by (intros v Hv; apply in_nseq in Hv; lia).
+  destruct (fold_remove_spec _ s H Hl) as [J1 J2]. split; [exact J1|].
+  intro x. rewrite (J2 x), in_nseq.
+  assert (A : lo <= x < lo + N.of_nat (N.to_nat (hi - lo)) <-> lo <= x < hi) by lia. tauto.
+Qed.
+
+(* ---- set operations ---- *)
+Lemma and_arrays_nil_l l2 r : bm_and_arrays [] l2 r = r.
+Proof. destruct l2; reflexivity. Qed.
+Lemma and_arrays_nil_r l1 r : bm_and_arrays l1 [] r = r.
+Proof. destruct l1; reflexivity. Qed.
+Lemma and_arrays_cons v1 t1 v2 t2 r :
+  bm_and_arrays (v1 :: t1) (v2 :: t2) r =
+  if v1 =? v2 then bm_and_arrays t1 t2 (fst (bm_add r v1))
+  else if v1 <? v2 then bm_and_arrays t1 (v2 :: t2) r
+  else bm_and_arrays (v1 :: t1) t2 r.
+Proof. reflexivity. Qed.
+
+Lemma and_arrays_spec l1 : forall l2 r, sorted l1 -> sorted l2 -> (forall v, In v l1 -> v < 65536) -> bm_Inv r ->
+  let s' := bm_and_arrays l1 l2 r in
+  bm_Inv s' /\ forall x, In x (bm_abs s') <-> (In x l1 /\ In x l2) \/ In x (bm_abs r).
+Proof.
+  induction l1 as [|v1 t1 IH1]; intros l2 r S1 S2 B1 Hr.
+  - rewrite and_arrays_nil_l. split; [exact Hr|]. intro x. cbn [In]. tauto.
+  - revert r Hr. induction l2 as [|v2 t2 IH2]; intros r Hr.
+    + rewrite and_arrays_nil_r. split; [exact Hr|]. intro x. cbn [In]. tauto.
+    + rewrite and_arrays_cons.
+      destruct (sorted_cons_inv _ _ S1) as [S1' H1]. destruct (sorted_cons_inv _ _ S2) as [S2' H2].
+      destruct (N.eqb_spec v1 v2) as [<-|Hne].
+      * destruct (add_spec r v1 Hr (B1 v1 (or_introl eq_refl))) as (I1 & I2 & _).
+        destruct (IH1 t2 _ S1' S2' (fun w Hw => B1 w (or_intror Hw)) I1) as [J1 J2]. split; [exact J1|].
+        intro x. rewrite (J2 x), (I2 x). cbn [In]. split.
+        -- intros [[A B]|[A|A]]; [left; tauto|left; subst; tauto|right; exact A].
+        -- intros [[[A|A] [B|B]]|A];
+             [right; left; congruence|right; left; congruence|right; left; congruence|left; tauto|right; right; exact A].
+      * destruct (v1 <? v2) eqn:E.
+        -- destruct (IH1 (v2 :: t2) r S1' S2 (fun w Hw => B1 w (or_intror Hw)) Hr) as [J1 J2]. split; [exact J1|].
+           intro x. rewrite (J2 x). cbn [In]. split.
+           ++ intros [[A B]|A]; [left; tauto|right; exact A].
+           ++ intros [[[A|A] [B|B]]|A];
+                [congruence|specialize (H2 _ B); lia|left; split; [exact A|left; exact B]|left; split; [exact A|right; exact B]|right; exact A].
+        -- destruct (IH2 S2' r Hr) as [J1 J2]. split; [exact J1|].
+           intro x. rewrite (J2 x). cbn [In]. split.
+           ++ intros [[A B]|A]; [left; tauto|right; exact A].
+           ++ intros [[[A|A] [B|B]]|A];
+                [congruence|left; split; [left; exact A|exact B]|specialize (H1 _ A); lia|left; split; [right; exact A|exact B]|right; exact A].
+Qed.
+
+Definition inter_post (s' a b : bm_state) : Prop :=
+  bm_Inv s' /\ forall x, In x (bm_abs s') <-> In x (bm_abs a) /\ In x (bm_abs b).
+
+Lemma and_general a b : bm_Inv a -> bm_Inv b ->
+  inter_post (fold_left (fun r v => if bm_contains b v then fst (bm_add r v) else r) (bm_abs a) bm_create) a b.
+Proof.
+  intros Ha Hb.
+  destruct (fold_add_if_spec (bm_contains b) (bm_abs a) bm_create inv_create (fun v Hv => inv_bound a v Ha Hv)) as [J1 J2].
+  split; [exact J1|]. intro x. rewrite (J2 x), abs_create. cbn [In]. split.
+  - intros [[A B]|[]]. split; [exact A|]. apply (proj1 (contains_spec b x Hb (inv_bound a x Ha A))). exact B.
+  - intros [A B]. left. split; [exact A|]. apply (proj2 (contains_spec b x Hb (inv_bound a x Ha A))). exact B.
+Qed.
+
+Theorem and_spec a b : bm_Inv a -> bm_Inv b ->
+  bm_Inv (bm_and a b) /\ forall x, In x (bm_abs (bm_and a b)) <-> In x (bm_abs a) /\ In x (bm_abs b).
+Proof.
+  intros Ha Hb. unfold bm_and. destruct (bm_is_array a && bm_is_array b).
+  - destruct (and_arrays_spec (bm_iter_all a) (bm_iter_all b) bm_create (inv_sorted a Ha) (inv_sorted b Hb)
+                (fun v Hv => inv_bound a v Ha Hv) inv_create) as [J1 J2].
+    split; [exact J1|]. intro x. rewrite (J2 x), abs_create. cbn [In]. unfold bm_abs. tauto.
+  - destruct (bm_card a <? bm_card b).
+    + apply (and_general a b Ha Hb).
+    + destruct (and_general b a Hb Ha) as [J1 J2]. split; [exact J1|]. intro x. rewrite (J2 x). tauto.
+Qed.
+
+Theorem or_spec a b : bm_Inv a -> bm_Inv b ->
+  bm_Inv (bm_or a b) /\ forall x, In x (bm_abs (bm_or a b)) <-> In x (bm_abs a) \/ In x (bm_abs b).
+Proof.
+  intros Ha Hb. unfold bm_or. rewrite clone_eq.
+  destruct (fold_add_spec (bm_iter_all b) a Ha (fun v Hv => inv_bound b v Hb Hv)) as [J1 J2].
+  split; [exact J1|]. intro x. rewrite (J2 x). unfold bm_abs. tauto.
+Qed.
+
+Lemma diff_general a b r : bm_Inv a -> bm_Inv b -> bm_Inv r ->
+  let s' := fold_left (fun r v => if bm_contains b v then r else fst (bm_add r v)) (bm_abs a) r in
+  bm_Inv s' /\ forall x, In x (bm_abs s') <-> (In x (bm_abs a) /\ ~ In x (bm_abs b)) \/ In x (bm_abs r).
+Proof.
+  intros Ha Hb Hr. cbv zeta.
+  rewrite (fold_left_ext _ (fun r v => if negb (bm_contains b v) then fst (bm_add r v) else r))
+    by (intros y z; destruct (bm_contains b z); reflexivity).
+  destruct (fold_add_if_spec (fun v => negb (bm_contains b v)) (bm_abs a) r Hr (fun v Hv => inv_bound a v Ha Hv)) as [J1 J2].
+  split; [exact J1|]. intro x. rewrite (J2 x). split.
+  - intros [[A B]|A]; [left|right; exact A]. split; [exact A|]. intro C.
+    apply (proj2 (contains_spec b x Hb (inv_bound a x Ha A))) in C. rewrite C in B. discriminate B.
+  - intros [[A B]|A]; [left|right; exact A]. split; [exact A|].
+    destruct (bm_contains b x) eqn:C; [|reflexivity]. exfalso. apply B.
+    apply (proj1 (contains_spec b x Hb (inv_bound a x Ha A))). exact C.
+Qed.
+
+Theorem andnot_spec a b : bm_Inv a -> bm_Inv b ->
+  bm_Inv (bm_andnot a b) /\ forall x, In x (bm_abs (bm_andnot a b)) <-> In x (bm_abs a) /\ ~ In x (bm_abs b).
+Proof.
+  intros Ha Hb. unfold bm_andnot. destruct (diff_general a b bm_create Ha Hb inv_create) as [J1 J2].
+  split; [exact J1|]. intro x. rewrite (J2 x), abs_create. cbn [In]. tauto.
+Qed.
+
+Theorem xor_spec a b : bm_Inv a -> bm_Inv b ->
+  bm_Inv (bm_xor a b) /\
+  forall x, In x (bm_abs (bm_xor a b)) <-> (In x (bm_abs a) /\ ~ In x (bm_abs b)) \/ (In x (bm_abs b) /\ ~ In x (bm_abs a)).
+Proof.
+  intros Ha Hb. unfold bm_xor. destruct (diff_general a b bm_create Ha Hb inv_create) as [I1 I2].
+  destruct (diff_general b a _ Hb Ha I1) as [J1 J2].
+  split; [exact J1|]. intro x. rewrite (J2 x), (I2 x), abs_create. cbn [In]. tauto.
 Qed.
